@@ -91,7 +91,24 @@ func c10Gen(rng *verifsim.RNG, idx int, tier string) *Plan {
 		}
 		p.Actions = append(p.Actions, a, Action{At: f, Kind: "link", If: "eth0", Oper: "down"})
 	case "link":
-		p.Actions = append(p.Actions, Action{At: f, Kind: "link", If: "eth0", Oper: []string{"down", "down", "up", "dormant"}[rng.Intn(4)]})
+		l := Action{At: f, Kind: "link", If: "eth0", Oper: []string{"down", "down", "up", "dormant"}[rng.Intn(4)]}
+		if !monitor && rng.Bool(0.35) {
+			// ... in the very instant in which more solicitations than the request
+			// queue holds are sitting in the socket (either may be noticed first)
+			p.Class = "link+burst"
+			biasQueueFull(rng, p)
+			b := rsAction(f, []string{hostAddr(3), "::"}[rng.Intn(2)])
+			b.N = rng.Range(17, 40)
+			if rng.Bool(0.5) {
+				b.Then = &Action{Kind: "link", If: "eth0", Oper: l.Oper}
+				p.Actions = append(p.Actions, b)
+			} else {
+				l.Then = &b
+				p.Actions = append(p.Actions, l)
+			}
+		} else {
+			p.Actions = append(p.Actions, l)
+		}
 	case "fwd":
 		p.Faults = append(p.Faults, Fault{Seam: "fwd", From: f, Err: []string{"fs.EPERM", "fs.ENOENT", "fs.EIO"}[rng.Intn(3)]})
 		p.Actions = append(p.Actions, rsAction(f+1000, hostAddr(0)))
